@@ -96,7 +96,9 @@ def _isdir_like(name):
         sf = Frame(None, None, {"p": VStr(p.z), "root": root}, "spec/specs.py")
         goal = eng.eval_merged(lambda: eng.truth(eng.eval_str("S.under(root, p)", sf)))
         eng.oblige("%s.sink[%s]" % (eng.cur_label, name), goal, kind="sink", site=getattr(node, "lineno", None), note="S.under(root, <path given to %s>)" % name)
-        return VBool(z3.Bool(eng.fresh_name("os_pred")))
+        # what the file system says about a path is a function of the path for the duration of a request
+        eng.assumptions_used.add("os.path.isdir/isfile/exists are functions of the path for the duration of a request (no concurrent modification)")
+        return VBool(X.sfun("fs_" + name.rsplit(".", 1)[1], X.STR, X.BOOL)(X.S(p.z)))
 
     return impl
 
@@ -198,7 +200,8 @@ def register(w):
             requires=req, modifies=["g:rootpath"] + (["ghost.open_files"] if name == "open" else []), raises=raises, returns=returns,
             on_raise={"*": [ROOTINV]},
             ensures=[ROOTINV] + (["result.pos == 0", "ghost.open_files == old(ghost.open_files) + [result]",
-                                   "result.content == fs_content(S.fspath_of(%s, selector))" % ROOT] if name == "open" else []),
+                                   "result.content == fs_content(S.fspath_of(%s, selector))" % ROOT] if name == "open" else [])
+                    + (["result == fs_%s(S.fspath_of(%s, selector))" % (name, ROOT)] if name in ("isdir", "isfile", "exists") else []),
             setup=_setup_sink_config,
             ghost={"open_files": "trace"},
             use_lemmas=[("safe-sel-resolves-under-root", {"s": "selector", "root": ROOT})] if name != "stat" else [],
@@ -395,7 +398,12 @@ def register3(w):
     w.contract(H + "gophermap.py::BuckGophermapHandler.canhandlerequest", selfclass=["BuckGophermapHandler"],
                globals=GROOT,
                requires=INV + VFSREQ + ["self.vfs.config is self.config"], modifies=[MROOT], returns="opt[bool]",
-               ensures=["implies(result, self.statresult is not None)"], **common)
+               ensures=["implies(result, self.statresult is not None)",
+                        "implies(self.statresult is not None and stat.S_ISDIR(self.statresult[0]), bool(result) == fs_isfile(S.fspath_of(self.config.get('pygopherd', 'root'), self.selector + '/gophermap')))",
+                        "implies(self.statresult is not None and stat.S_ISREG(self.statresult[0]), bool(result) == self.selector.endswith('.gophermap'))",
+                        "implies(self.statresult is None, not result)"],
+               note="C09: a directory is rendered from its gophermap exactly when <directory>/gophermap is a regular file (whatever its size or content), a regular file exactly when its name ends in .gophermap",
+               raises={}, props=["C01", "C09", "C05"])
     w.contract(H + "scriptexec.py::ExecHandler.canhandlerequest", selfclass=["ExecHandler"],
                requires=INV, modifies=[], returns="opt[bool]",
                ensures=["implies(result, self.statresult is not None and stat.S_ISREG(self.statresult[0]))"], **common)
